@@ -108,6 +108,17 @@ chk("C12", "envx", "exploration", ENVA_TECH,
     "(absent iff none moves), root position advanced to the event time == weighted nearest-image barycentre.",
     ENVA_NOTE, "DESIGN.md §5/C12")
 
+chk("C17", "envx", "exploration",
+    "stateless deviation-bounded exploration of complete runs (to EndOfRun) of 8 configurations x a lattice of "
+    "(sampling interval, end time, chain time, first-sample-at-zero) under the scripted random seam; after every "
+    "execution sample times are compared with k * interval in exact rationals, every moving unit of the written "
+    "state must carry the sample time, sample count and end-of-run time are checked; C07 continuity monitor alongside",
+    "All executions with <= 1 deviation around 2-4 baselines (deviations per baseline capped at 120/400) on runs that "
+    "really terminate; the sampling / end-of-run / dumping handlers and the mediator are the real ones.",
+    "Short runs (<= 100 samples); ties between a sampling time and the end time within rounding accept either count; "
+    "output handlers are replaced by a recorder (what is handed to write() is checked, not the files).",
+    "DESIGN.md §5/C17")
+
 ENGINES = [
     {"name": "envx", "path": "jfv/envx.py", "serves_properties": ["C07", "C08", "C09", "C11", "C12", "C13", "C17", "C01",
                                                                     "C04"],
